@@ -456,6 +456,18 @@ func (env *Env) elabCall(e *SCall) Val {
 			case "remove":
 				a := args()
 				return Val{T: app("store", a[0].T, a[1].T, "false"), S: a[0].S}
+			case "put":
+				a := args()
+				if a[0].S.K != KMap {
+					elabFail("put on %s", a[0].S)
+				}
+				return mapStore(a[0], a[1].T, a[2].T)
+			case "del":
+				a := args()
+				if a[0].S.K != KMap {
+					elabFail("del on %s", a[0].S)
+				}
+				return mapDelete(a[0], a[1].T)
 			case "isNilSlice":
 				a := args()
 				return Val{T: app("s-nil", a[0].T), S: SBool}
@@ -482,6 +494,36 @@ func (env *Env) elabCall(e *SCall) Val {
 					elabFail("typeId: unknown type %s", name)
 				}
 				return Val{T: ex.typeTag(t), S: SInt}
+			case "cast":
+				// cast(T, x): x (a reference) viewed at Go type T
+				name := e.Args[0].(*SLit).Val
+				isPtr := strings.HasPrefix(name, "*")
+				t := ex.lookupGoType(env.pkg, strings.TrimPrefix(name, "*"))
+				if t == nil {
+					elabFail("cast: unknown type %s", name)
+				}
+				if isPtr {
+					t = types.NewPointer(t)
+				}
+				v := env.elab(e.Args[1])
+				if v.S.K != KRef || ex.sortOf(t).K != KRef {
+					elabFail("cast only between reference types")
+				}
+				v.GoT = t
+				return v
+			case "allocated":
+				// allocated(x): the reference x denotes an object that exists in the current state
+				a := args()
+				if env.cur == nil || env.cur.alloc == "" {
+					elabFail("allocated: no state")
+				}
+				return Val{T: app("<=", a[0].T, env.cur.alloc), S: SBool}
+			case "derefRef":
+				a := args()
+				if env.cur == nil {
+					elabFail("derefRef: no heap")
+				}
+				return Val{T: app("select", ex.heapGet(env.cur, "ptr.Ref", SRef), a[0].T), S: SRef}
 			case "errIs":
 				a := args()
 				ex.declare("(declare-fun errIs (Ref Ref) Bool)")
